@@ -225,8 +225,10 @@ SlotsDenote(el, o) ==
   ELSE IF Len(ccs) = 1 /\ ccs[1].k = "expr" THEN
        LET e == Peel(ccs[1].e) IN
        CASE e.k \in {"ident", "call"} ->
-              IF o.enableObjectSlots /\ IsSlotValue(Eval(e))
-              THEN Slots(AsSlotEntries(Eval(e)))     \* passed through as the slots (v-slots: silent, \S6.0)
+              IF HasVSlots(el.attrs) THEN wrapped    \* beside `v-slots` the child is the default slot (no runtime decision: the
+                                                     \* v-slots value must be evaluated and used, C11)
+              ELSE IF o.enableObjectSlots /\ IsSlotValue(Eval(e))
+              THEN Slots(AsSlotEntries(Eval(e)))     \* passed through as the slots
               ELSE wrapped
          [] e.k \in {"arrow", "fnexpr"} -> Slots(<< <<"default", SlotOfExpr(e)>> >> \o vs)
          [] e.k = "objlit" -> IF HasVSlots(el.attrs)
